@@ -121,7 +121,7 @@ def run_case(case):
     intflow = bool(case.get('intflow'))
     lsc = float(gopts.get('lscale') or 1.0)
     gflow = g if lsc == 1.0 else Geom(cls, [np.asarray(f, dtype=float) / lsc if AXKIND[cls][k_] in ('len', 'rad') else f for k_, f in enumerate(faces)])
-    u, flowfam = flow_for(rng, gflow, m, spec, fams=('uniform-int',) if intflow else ('uniform', 'axis', 'radial', 'axis', 'uniform-int') if thin else
+    u, flowfam = flow_for(rng, gflow, m, spec, fams=tuple(case['flows']) if case.get('flows') else ('uniform-int',) if intflow else ('uniform', 'axis', 'radial', 'axis', 'uniform-int') if thin else
                           ('none', 'uniform', 'radial', 'stream-walls', 'stream-open', 'stream-walls', 'axis', 'axis', 'uniform-int'), retry=bool(case.get('geo')))
     if thin:
         cov['thin_grid'] = 1
@@ -333,6 +333,12 @@ def plan(tier, seed):
         cases = [{'cls': cls, 'seed': [seed, 7, ci, i], 'family': gen.FAMILIES[i % 5] if i % 3 else None} for i in range(per)]
         cases += [{'cls': cls, 'seed': [seed, 7, ci, 200000 + i], 'family': gen.FAMILIES[i % 5] if i % 2 else None, 'tunit': True} for i in range(per // 4)]
         cases += [{'cls': cls, 'seed': [seed, 7, ci, 400000 + i], 'family': None, 'geo': ['nano', 'offset', 'wild', 'negative', 'int', 'thinend', 'jitter', 'offset'][i % 8]} for i in range(per // 2)]
+        # directed geometry x flow pairs: through-flow across the innermost face of tiny annuli / shells, genuinely multi-dimensional
+        # divergence-free flow in boxes far from the origin (each face flux matters for the balance of a cell)
+        dflows = ['radial', 'axis'] if NDIM[cls] == 1 and cls != 'Grid1D' else ['stream-walls', 'stream-open', 'radial']
+        rad1 = NDIM[cls] == 1 and cls != 'Grid1D'
+        cases += [{'cls': cls, 'seed': [seed, 7, ci, 500000 + i], 'family': None, 'geo': (['nano', 'nano', 'offset', 'nano', 'thinend'][i % 5] if rad1 else ['nano', 'offset', 'negative', 'thinend'][i % 4]), 'flows': dflows}
+                  for i in range(per if rad1 else max(8, per // 5))]
         if cls in ('Grid1D', 'Grid2D', 'Grid3D'):
             cases += [{'cls': cls, 'seed': [seed, 7, ci, 300000 + i], 'family': gen.FAMILIES[i % 5] if i % 2 else None, 'intflow': True}
                       for i in range(per // (2 if cls == 'Grid1D' else 6))]
